@@ -11,15 +11,16 @@
 EXTENDS DualAvg, Json, IOUtils, TLC
 Rec == ndJsonDeserialize(IOEnv.TRACE)
 Budget == 8
-VARIABLES l, m, nd, le, leb, hb, mu, delta, first
-vars == <<l, m, nd, le, leb, hb, mu, delta, first>>
+VARIABLES l, m, nd, le, leb, hb, mu, delta, first,
+          ka      \* adapting transitions of the chain so far: the iteration index of the dual averaging
+vars == <<l, m, nd, le, leb, hb, mu, delta, first, ka>>
 Fx12(x) == x.v \div 16
 Fin(x) == x.k = "fin"
-Init == l = 1 /\ m = 0 /\ nd = 0 /\ le = 0 /\ leb = 0 /\ hb = 0 /\ mu = 0 /\ delta = 0 /\ first = TRUE
+Init == l = 1 /\ m = 0 /\ nd = 0 /\ le = 0 /\ leb = 0 /\ hb = 0 /\ mu = 0 /\ delta = 0 /\ first = TRUE /\ ka = 0
 
 NewChain ==
   /\ l <= Len(Rec) /\ Rec[l].e = "chain"
-  /\ m' = 0 /\ nd' = 0 /\ le' = 0 /\ leb' = 0 /\ hb' = 0 /\ mu' = 0 /\ first' = TRUE
+  /\ m' = 0 /\ nd' = 0 /\ le' = 0 /\ leb' = 0 /\ hb' = 0 /\ mu' = 0 /\ first' = TRUE /\ ka' = 0
   /\ delta' = Fx12(Rec[l].delta) /\ l' = l + 1
 
 InitEv ==
@@ -27,11 +28,12 @@ InitEv ==
   /\ LET e == Rec[l] IN
      /\ e.m = m                                    \* the warm-up counter persists across calls
      /\ e.eps_pos_finite /\ Fin(e.eps) /\ Fin(e.mu)
-     /\ MuOk(Fx12(e.mu), Fx12(e.eps))              \* shrinkage point ln(10 eps)
+     /\ (m = 0) => MuOk(Fx12(e.mu), Fx12(e.eps))   \* shrinkage point ln(10 eps0): fixed when the chain starts ...
+     /\ (m > 0) => Fx12(e.mu) = mu                 \* ... and kept by every later call
      /\ (first /\ ~e.forced) => PowerOfTwo(Fx12(e.eps))           \* eps0 from the doubling/halving heuristic
      /\ ~first => Fx12(e.eps) = le                 \* later calls keep the current step size
      /\ nd' = e.nd /\ le' = Fx12(e.eps) /\ mu' = Fx12(e.mu) /\ first' = FALSE
-  /\ UNCHANGED <<m, leb, hb, delta>> /\ l' = l + 1
+  /\ UNCHANGED <<m, leb, hb, delta, ka>> /\ l' = l + 1
 
 StepEv ==
   /\ l <= Len(Rec) /\ Rec[l].e = "step"
@@ -42,14 +44,20 @@ StepEv ==
         /\ e.eps_pos_finite /\ e.epsbar_pos_finite       \* positive and finite throughout
         /\ Fin(e.eps) /\ Fin(e.epsbar) /\ Fin(e.hbar)
         /\ e.rh <= Budget
-        /\ (Fin(e.alpha) /\ m2 <= 2038) => HbarOk(m2, hb, Fx12(e.hbar), delta, a)
         /\ IF m2 <= nd
-           THEN \* Adapt
+           THEN \* Adapt: one more iteration of the dual averaging, indexed by the count of ADAPTING transitions (a warm-up
+                \* resumed by a later call continues where the previous one stopped)
+                /\ e.ka = ka + 1
                 /\ e.re <= Budget /\ e.rb <= Budget
-                /\ m2 <= 2048 => (EpsOk(m2, mu, Fx12(e.hbar), Fx12(e.eps)) /\ EpsBarOk(m2, leb, Fx12(e.eps), Fx12(e.epsbar)))
-           ELSE \* Freeze: the step size is the averaged iterate, which no longer moves
+                /\ (Fin(e.alpha) /\ ka + 1 <= 2038) => HbarOk(ka + 1, hb, Fx12(e.hbar), delta, a)
+                /\ ka + 1 <= 2048 => (EpsOk(ka + 1, mu, Fx12(e.hbar), Fx12(e.eps)) /\ EpsBarOk(ka + 1, leb, Fx12(e.eps), Fx12(e.epsbar)))
+                /\ ka' = ka + 1
+           ELSE \* Freeze: the step size is the averaged iterate, which no longer moves; neither does the adaptation state
+                /\ e.ka = ka
                 /\ e.eps = e.epsbar
                 /\ Fx12(e.epsbar) = leb
+                /\ Fx12(e.hbar) = hb
+                /\ ka' = ka
         /\ m' = m2 /\ le' = Fx12(e.eps) /\ leb' = Fx12(e.epsbar) /\ hb' = Fx12(e.hbar)
   /\ UNCHANGED <<nd, mu, delta, first>> /\ l' = l + 1
 
@@ -58,7 +66,7 @@ StepEv ==
 HeurEv ==
   /\ l <= Len(Rec) /\ Rec[l].e = "heur"
   /\ Rec[l].pos_finite /\ PowerOfTwo(Fx12(Rec[l].eps)) /\ Rec[l].exit_ok /\ Rec[l].prev_continues
-  /\ UNCHANGED <<m, nd, le, leb, hb, mu, delta, first>> /\ l' = l + 1
+  /\ UNCHANGED <<m, nd, le, leb, hb, mu, delta, first, ka>> /\ l' = l + 1
 
 \* a chain of the multi-chain front end after its first run() / run_progress() call: its shrinkage point is ln(10 eps0) of
 \* ITS OWN start value (the heuristic at its start point with its first momentum draw, evaluated by the harness through
@@ -69,7 +77,7 @@ MultiEv ==
      /\ e.ok_run /\ Fin(e.eps0) /\ Fin(e.mu) /\ Fin(e.eps)
      /\ PowerOfTwo(Fx12(e.eps0))
      /\ MuOk(Fx12(e.mu), Fx12(e.eps0))
-  /\ UNCHANGED <<m, nd, le, leb, hb, mu, delta, first>> /\ l' = l + 1
+  /\ UNCHANGED <<m, nd, le, leb, hb, mu, delta, first, ka>> /\ l' = l + 1
 
 Next == NewChain \/ InitEv \/ StepEv \/ HeurEv \/ MultiEv
 Spec == Init /\ [][Next]_vars
